@@ -122,7 +122,7 @@ impl Prop for C17 {
         }
     }
     fn required_probes(&self, _tier: Tier) -> Vec<&'static str> {
-        vec!["files_ge_100", "interleaved_two_files", "late_block_of_early_file", "range_starts_mid_file", "range_stops_mid_file", "emfile_limit_at_peak"]
+        vec!["files_ge_100", "interleaved_two_files", "late_block_of_early_file", "range_starts_mid_file", "range_stops_mid_file", "emfile_limit_at_peak", "blocks_over_1_mib"]
     }
     fn explore(&self, item: u64, rng: &mut Rng, tier: Tier, h: &mut Harness) -> Result<(), String> {
         let coin = COINS[(item % 8) as usize];
@@ -131,6 +131,15 @@ impl Prop for C17 {
         let big = item % 11 == 0;
         let n = if big { rng.usize(150, if tier == Tier::Quick { 320 } else { 600 }) } else { rng.usize(3, 40) };
         scn.chain = (0..n).map(|i| marker_block(i as u64, 0, rng)).collect();
+        // a few blocks of more than 1 MiB (real blocks are), in different files
+        let fat = !big && item % 13 == 1;
+        if fat {
+            for k in 0..rng.usize(2, 4) {
+                let i = (k * n / 4 + rng.usize(0, 1)).min(n - 1);
+                scn.chain[i].txs[0].inputs[0].script_sig = Bytes(vec![(i % 251) as u8; 1_048_576 + rng.usize(0, 400_000)]);
+            }
+            h.stats.probe("blocks_over_1_mib");
+        }
         let max_files = if big { 300 } else { 12 };
         scn.layouts = vec![layout_family(fam, n, rng, max_files)];
         // a reorg history in the index (records the loader ignores) must not keep files open
@@ -150,7 +159,7 @@ impl Prop for C17 {
             let s = r.start.unwrap_or(0);
             r.end = Some(rng.range(s + 1, t + 1));
         }
-        if rng.chance(1, 3) {
+        if rng.chance(1, 3) && !fat {
             r.plan.chunk_blk = random_chunks(rng);
         }
         // simulated clock: the "every 10 seconds" progress report fires every few blocks (or every block)
